@@ -121,3 +121,53 @@ def blocks_touching_self_fields(body, names, root=1):
             if sp and sp[0] in names:
                 out.setdefault(bb, set()).add(sp[0])
     return out
+
+
+OPTION_KEEP = ('cloned', 'copied', 'as_ref', 'as_mut', 'as_deref', 'map', 'inspect', 'filter')
+OPTION_TO_RESULT = ('ok_or', 'ok_or_else')
+RESULT_KEEP = ('and_then', 'map', 'map_err', 'or_else', 'inspect_err')
+
+
+def none_becomes_err(body, opt_local):
+    """combinator form of "a lookup miss is an error": the Option held in `opt_local` flows (through cloned / copied /
+    map ...) into ok_or / ok_or_else, and the resulting Result is what the function returns (directly, through
+    and_then / map / map_err, or through `?`). Returns True when that chain is found."""
+    from .eng_ri import uses_of_locals
+    uses = uses_of_locals(body)
+    seen = set()
+    work = [(opt_local, 'option')]
+    while work:
+        l, kind = work.pop()
+        if (l, kind) in seen:
+            continue
+        seen.add((l, kind))
+        if kind == 'result' and l == 0:
+            return True
+        for site in uses.get(l, []):
+            if site[0] == 'stmt':
+                st = body.stmts(site[1])[site[2]]
+                if st['k'] == 'assign' and 'pj' not in st['p'] and st['r']['k'] == 'use':
+                    src = st['r']['o'].get('m') or st['r']['o'].get('c')
+                    if src is not None and 'pj' not in src and src['l'] == l:
+                        work.append((st['p']['l'], kind))
+            else:
+                t = body.term(site[1])
+                if t['k'] != 'call' or not t['args']:
+                    continue
+                a0 = t['args'][0].get('m') or t['args'][0].get('c')
+                if a0 is None or 'pj' in a0 or a0['l'] != l or 'pj' in t['dest']:
+                    continue
+                info = call_info(t)
+                if not info:
+                    continue
+                nm = info['fn'].rsplit('::', 1)[-1]
+                recv = info['fn']
+                if kind == 'option' and 'Option' in recv and nm in OPTION_KEEP:
+                    work.append((t['dest']['l'], 'option'))
+                elif kind == 'option' and 'Option' in recv and nm in OPTION_TO_RESULT:
+                    work.append((t['dest']['l'], 'result'))
+                elif kind == 'result' and 'Result' in recv and nm in RESULT_KEEP:
+                    work.append((t['dest']['l'], 'result'))
+                elif kind == 'result' and info['fn'].endswith('Try::branch'):
+                    return True
+    return False
